@@ -207,6 +207,7 @@ func (c *FnCtx) runTop(rep *FnReport, kf *KnownFindings) (err error) {
 		fr.free = append(fr.free, v)
 		_ = k
 	}
+	c.prescanTracked(fn, spec, 0, map[*ssa.Function]bool{})
 	env := c.newEnv(fr, st, st)
 	env.freeBind = fr.free
 	c.bindParams(env, fn, spec, args)
@@ -451,3 +452,53 @@ func (e *Engine) ghostEntry(c *FnCtx, fr *Frame, st *State)            {}
 func (e *Engine) ghostExit(c *FnCtx, fr *Frame, st *State, env *Env) {}
 
 var _ = types.Typ
+
+// prescanTracked declares the argument ghosts of tracked callees before execution starts, so that invariants may name
+// lastarg(F, k) at points the first call has not reached yet (guarded by calls(F) > ...).
+func (c *FnCtx) prescanTracked(fn *ssa.Function, spec *FuncSpec, depth int, seen map[*ssa.Function]bool) {
+	if spec == nil || len(spec.Track) == 0 || fn == nil || seen[fn] || depth > 3 {
+		return
+	}
+	seen[fn] = true
+	tracked := func(n string) bool {
+		for _, t := range spec.Track {
+			if t == n {
+				return true
+			}
+		}
+		return false
+	}
+	for _, b := range fn.Blocks {
+		for _, ins := range b.Instrs {
+			call, ok := ins.(ssa.CallInstruction)
+			if !ok {
+				continue
+			}
+			cc := call.Common()
+			name := ""
+			var ats []types.Type
+			if cc.IsInvoke() {
+				name = cc.Method.Name()
+				ats = append(ats, cc.Value.Type())
+			} else if callee := cc.StaticCallee(); callee != nil {
+				name = callee.Name()
+				if c.eng.specOf(callee) == nil && c.eng.inlinable(callee) {
+					c.prescanTracked(callee, spec, depth+1, seen)
+				}
+			}
+			if name == "" || !tracked(name) {
+				continue
+			}
+			for _, a := range cc.Args {
+				ats = append(ats, a.Type())
+			}
+			for k, t := range ats {
+				comp := fmt.Sprintf("ghost$arg$%s$%d", name, k)
+				if _, ok := c.trackArgT[comp]; !ok {
+					c.comp(comp, c.ty.SortOf(t), t)
+					c.trackArgT[comp] = t
+				}
+			}
+		}
+	}
+}
